@@ -196,7 +196,9 @@ static bool print_all(World &w, MVal *x, int64_t parg, std::string &F, std::stri
         int p = k < 3 ? cand[pr.below(8)] : PREBUF[pr.below(12)];
         if (p < 0) p = 0;
         for (int fmt = 0; fmt < 2; fmt++) {
-            char *b = cJSON_PrintBuffered(x->c, p, fmt);
+            // cJSON_bool is an int: every non-zero value asks for formatted output
+            static const int truthy[] = {1, 1, 2, -1, 255, 1024};
+            char *b = cJSON_PrintBuffered(x->c, p, fmt ? truthy[pr.below(6)] : 0);
             TextGuard gb(b);
             if (!b) { err = "PrintBuffered(prebuffer " + I(p) + ", fmt " + I(fmt) + ") returned NULL"; return false; }
             if ((fmt ? F : U) != b) { err = "PrintBuffered(prebuffer " + I(p) + ", fmt " + I(fmt) + ") differs from Print" + (fmt ? "" : "Unformatted") + ": '" + show_bytes(b, 80) + "' vs '" + show_bytes(fmt ? F : U, 80) + "'"; return false; }
@@ -207,7 +209,8 @@ static bool print_all(World &w, MVal *x, int64_t parg, std::string &F, std::stri
         const std::string &T = fmt ? F : U;
         size_t n = T.size() + 6 + (size_t)pr.below(20);
         OutputView ov = present_output(n, 0xEE);
-        cJSON_bool ok = cJSON_PrintPreallocated(x->c, ov.ptr, (int)n, fmt);
+        static const int truthy2[] = {1, 2, -1, 4};
+        cJSON_bool ok = cJSON_PrintPreallocated(x->c, ov.ptr, (int)n, fmt ? truthy2[pr.below(4)] : 0);
         if (!ok) { err = "PrintPreallocated with text length + " + I((int64_t)(n - T.size())) + " bytes returned false"; return false; }
         if (!output_canaries_intact(ov)) { err = "PrintPreallocated wrote in front of the buffer"; return false; }
         if (strnlen(ov.ptr, n) != T.size() || memcmp(ov.ptr, T.data(), T.size()) != 0) { err = "PrintPreallocated text differs from Print" + std::string(fmt ? "" : "Unformatted"); return false; }
@@ -330,7 +333,8 @@ DEFOP(capscan) {
         size_t stride = T.size() > 4000 ? T.size() / 600 : 1;
         for (size_t n = 0; n <= T.size() + 16; n += (n < 200 || n + 200 >= T.size()) ? 1 : stride) {
             OutputView ov = present_output(n, (unsigned char)(0xE0 + (n & 7)));
-            cJSON_bool ok = cJSON_PrintPreallocated(x->c, ov.ptr, (int)n, fmt);
+            static const int truthy3[] = {1, 1, 2, -1, 255};
+            cJSON_bool ok = cJSON_PrintPreallocated(x->c, ov.ptr, (int)n, fmt ? truthy3[(uint64_t)st.A(2) % 5] : 0);
             w.stats.fault_counts["cap"]++;
             std::string ctx = " [n=" + I((int64_t)n) + ", text length " + I((int64_t)T.size()) + ", fmt " + I(fmt) + ", tree " + mv_dump(x, 80) + "]";
             if (!output_canaries_intact(ov)) { w.mismatch("bounds", "bytes in front of the caller buffer were modified" + ctx); return; }
